@@ -1,2 +1,662 @@
+(* C03 — proofs.  All statements are for every class layout / size / parameter /
+   draw sequence; induction over lists and fuel, no bounded sweeps. *)
+From Coq Require Import ZArith List Bool Lia ZifyBool Permutation Sorted Arith Floats.
+Import ListNotations.
 From KD Require Import C03.Model C03.Spec.
-Lemma placeholder : True. Proof. exact I. Qed.
+Open Scope Z_scope.
+
+(* ------------------------------------------------------------------ *)
+(* zrange                                                              *)
+(* ------------------------------------------------------------------ *)
+Lemma zlen_nonneg {A} (l : list A) : 0 <= zlen l.
+Proof. unfold zlen. lia. Qed.
+
+Lemma zlen_app {A} (a b : list A) : zlen (a ++ b) = zlen a + zlen b.
+Proof. unfold zlen. rewrite app_length. lia. Qed.
+
+Lemma zlen_cons {A} (x : A) l : zlen (x :: l) = 1 + zlen l.
+Proof. unfold zlen. simpl length. lia. Qed.
+
+Lemma zrange_nil a b : b <= a -> zrange a b = [].
+Proof. intros. unfold zrange. replace (Z.to_nat (b - a)) with 0%nat by lia. reflexivity. Qed.
+
+Lemma zrange_cons a b : a < b -> zrange a b = a :: zrange (a + 1) b.
+Proof.
+  intros. unfold zrange.
+  replace (Z.to_nat (b - a)) with (S (Z.to_nat (b - (a + 1)))) by lia.
+  simpl. f_equal. lia.
+  rewrite <- seq_shift, map_map. apply map_ext. intros. lia.
+Qed.
+
+Lemma In_zrange x a b : In x (zrange a b) <-> a <= x < b.
+Proof.
+  unfold zrange. rewrite in_map_iff. split.
+  - intros (k & <- & Hk). apply in_seq in Hk. lia.
+  - intros. exists (Z.to_nat (x - a)). split. lia. apply in_seq. lia.
+Qed.
+
+Lemma zrange_length a b : length (zrange a b) = Z.to_nat (b - a).
+Proof. unfold zrange. now rewrite map_length, seq_length. Qed.
+
+Lemma zlen_zrange a b : zlen (zrange a b) = Z.max 0 (b - a).
+Proof. unfold zlen. rewrite zrange_length. lia. Qed.
+
+Lemma zrange_app a m b : a <= m <= b -> zrange a m ++ zrange m b = zrange a b.
+Proof.
+  remember (Z.to_nat (m - a)) as k. revert a Heqk.
+  induction k; intros.
+  - assert (m = a) by lia. subst. now rewrite zrange_nil by lia.
+  - rewrite (zrange_cons a m), (zrange_cons a b) by lia. simpl. f_equal. apply IHk; lia.
+Qed.
+
+Lemma zrange_snoc a b : a <= b -> zrange a (b + 1) = zrange a b ++ [b].
+Proof.
+  intros. rewrite <- (zrange_app a b (b + 1)) by lia. f_equal.
+  rewrite zrange_cons by lia. now rewrite zrange_nil by lia.
+Qed.
+
+Lemma zrange_nth a b k : (k < length (zrange a b))%nat -> nth k (zrange a b) 0 = a + Z.of_nat k.
+Proof.
+  intros. unfold zrange in *. rewrite map_length, seq_length in H.
+  rewrite (nth_indep _ 0 (a + Z.of_nat 0)) by (now rewrite map_length, seq_length).
+  rewrite (map_nth (fun k => a + Z.of_nat k)). now rewrite seq_nth.
+Qed.
+
+Lemma zrange_sorted a b : StronglySorted Z.lt (zrange a b).
+Proof.
+  remember (Z.to_nat (b - a)) as k. revert a Heqk.
+  induction k; intros.
+  - rewrite zrange_nil by lia. constructor.
+  - rewrite zrange_cons by lia. constructor. apply IHk; lia.
+    apply Forall_forall. intros x Hx. apply In_zrange in Hx. lia.
+Qed.
+
+Lemma zrange_nodup a b : NoDup (zrange a b).
+Proof.
+  unfold zrange. apply FinFun.Injective_map_NoDup. intros x y. lia. apply seq_NoDup.
+Qed.
+
+(* ------------------------------------------------------------------ *)
+(* counting                                                            *)
+(* ------------------------------------------------------------------ *)
+Definition cntf (f : Z -> bool) (l : list Z) : Z := zlen (filter f l).
+
+Lemma cntf_nil f : cntf f [] = 0.
+Proof. reflexivity. Qed.
+
+Lemma cntf_cons f x l : cntf f (x :: l) = (if f x then 1 else 0) + cntf f l.
+Proof. unfold cntf. simpl. destruct (f x). apply zlen_cons. lia. Qed.
+
+Lemma cntf_app f a b : cntf f (a ++ b) = cntf f a + cntf f b.
+Proof. unfold cntf. now rewrite filter_app, zlen_app. Qed.
+
+Lemma cntf_nonneg f l : 0 <= cntf f l.
+Proof. apply zlen_nonneg. Qed.
+
+Lemma cntf_le_len f l : cntf f l <= zlen l.
+Proof. induction l. unfold cntf, zlen; simpl; lia. rewrite cntf_cons, zlen_cons. destruct (f a); lia. Qed.
+
+Lemma cntf_all f l : (forall x, In x l -> f x = true) -> cntf f l = zlen l.
+Proof.
+  induction l; intros. reflexivity.
+  rewrite cntf_cons, zlen_cons, H by (now left). rewrite IHl. lia. intros. apply H. now right.
+Qed.
+
+Lemma cntf_none f l : (forall x, In x l -> f x = false) -> cntf f l = 0.
+Proof.
+  induction l; intros. reflexivity.
+  rewrite cntf_cons, H by (now left). rewrite IHl. lia. intros. apply H. now right.
+Qed.
+
+Lemma cntf_ext_in f g l : (forall x, In x l -> f x = g x) -> cntf f l = cntf g l.
+Proof. intros. unfold cntf. f_equal. now apply filter_ext_in. Qed.
+
+Lemma cntf_concat_repeat f l k : cntf f (concat (repeat l k)) = Z.of_nat k * cntf f l.
+Proof. induction k. reflexivity. simpl repeat. simpl concat. rewrite cntf_app, IHk. lia. Qed.
+
+Lemma cntf_firstn_le f k l : cntf f (firstn k l) <= cntf f l.
+Proof.
+  revert k. induction l; intros; destruct k; simpl; try (rewrite ?cntf_nil; lia).
+  - rewrite cntf_nil. apply cntf_nonneg.
+  - rewrite !cntf_cons. specialize (IHl k). lia.
+Qed.
+
+Lemma cntf_pos_In f l : 0 < cntf f l <-> exists x, In x l /\ f x = true.
+Proof.
+  split.
+  - induction l. rewrite cntf_nil. lia.
+    rewrite cntf_cons. destruct (f a) eqn:E; intros.
+    + exists a. simpl. auto.
+    + destruct IHl as (x & ? & ?). lia. exists x. simpl. auto.
+  - intros (x & Hin & Hf). induction l. destruct Hin.
+    rewrite cntf_cons. pose proof (cntf_nonneg f l). destruct Hin.
+    + subst. rewrite Hf. lia.
+    + specialize (IHl H0). destruct (f a); lia.
+Qed.
+
+Lemma occ_cntf i out : occ i out = cntf (Z.eqb i) out.
+Proof. reflexivity. Qed.
+
+Lemma class_occ_cntf classes c out : class_occ classes c out = cntf (fun i => cls classes i =? c) out.
+Proof. reflexivity. Qed.
+
+Lemma count_of_cntf c l : count_of c l = cntf (Z.eqb c) l.
+Proof. reflexivity. Qed.
+
+Lemma occ_nodup i l : NoDup l -> occ i l = if in_dec Z.eq_dec i l then 1 else 0.
+Proof.
+  rewrite occ_cntf. induction 1. now rewrite cntf_nil.
+  rewrite cntf_cons, IHNoDup. destruct (Z.eqb_spec i x).
+  - subst. destruct (in_dec Z.eq_dec x l). contradiction.
+    destruct (in_dec Z.eq_dec x (x :: l)). lia. exfalso. apply n0. now left.
+  - destruct (in_dec Z.eq_dec i l); destruct (in_dec Z.eq_dec i (x :: l)); try lia.
+    + exfalso. apply n0. now right.
+    + destruct i0. congruence. contradiction.
+Qed.
+
+(* ------------------------------------------------------------------ *)
+(* sel_from / positions                                                *)
+(* ------------------------------------------------------------------ *)
+Lemma sel_from_filter f l : forall i,
+  sel_from i f l = filter (fun j => f (nth (Z.to_nat (j - i)) l (-1))) (zrange i (i + zlen l)).
+Proof.
+  induction l; intros.
+  - simpl. rewrite zrange_nil. reflexivity. unfold zlen. simpl. lia.
+  - rewrite zlen_cons, zrange_cons by (pose proof (zlen_nonneg l); lia).
+    simpl filter. replace (Z.to_nat (i - i)) with 0%nat by lia. simpl nth.
+    assert (E : sel_from (i + 1) f l =
+                filter (fun j => f (nth (Z.to_nat (j - i)) (a :: l) (-1))) (zrange (i + 1) (i + (1 + zlen l)))).
+    { rewrite IHl. replace (i + 1 + zlen l) with (i + (1 + zlen l)) by lia.
+      apply filter_ext_in. intros j Hj. apply In_zrange in Hj.
+      replace (Z.to_nat (j - i)) with (S (Z.to_nat (j - (i + 1)))) by lia. reflexivity. }
+    simpl. rewrite E. reflexivity.
+Qed.
+
+Lemma sel_from_spec f classes :
+  sel_from 0 f classes = filter (fun i => f (cls classes i)) (all_ids classes).
+Proof.
+  rewrite sel_from_filter. unfold all_ids, cls. simpl.
+  apply filter_ext. intros. now rewrite Z.sub_0_r.
+Qed.
+
+Lemma positions_filter c classes :
+  positions c classes = filter (fun i => cls classes i =? c) (all_ids classes).
+Proof.
+  unfold positions. rewrite sel_from_spec. apply filter_ext. intros. apply Z.eqb_sym.
+Qed.
+
+Lemma In_positions x c classes :
+  In x (positions c classes) <-> 0 <= x < zlen classes /\ cls classes x = c.
+Proof.
+  rewrite positions_filter, filter_In. unfold all_ids. rewrite In_zrange, Z.eqb_eq. tauto.
+Qed.
+
+Lemma sel_from_len f l : forall i, zlen (sel_from i f l) = cntf f l.
+Proof.
+  induction l; intros. reflexivity.
+  simpl. rewrite cntf_cons. destruct (f a). rewrite zlen_cons, IHl. lia. rewrite IHl. lia.
+Qed.
+
+Lemma zlen_positions c classes : zlen (positions c classes) = count_of c classes.
+Proof. unfold positions. now rewrite sel_from_len. Qed.
+
+Lemma length_positions c classes : length (positions c classes) = Z.to_nat (count_of c classes).
+Proof. rewrite <- zlen_positions. unfold zlen. lia. Qed.
+
+Lemma filter_sorted {A} (R : A -> A -> Prop) f l : StronglySorted R l -> StronglySorted R (filter f l).
+Proof.
+  induction 1. constructor. simpl. destruct (f a); auto. constructor; auto.
+  apply Forall_forall. intros x Hx. apply filter_In in Hx.
+  rewrite Forall_forall in H0. apply H0. tauto.
+Qed.
+
+Lemma positions_sorted c classes : StronglySorted Z.lt (positions c classes).
+Proof. rewrite positions_filter. apply filter_sorted, zrange_sorted. Qed.
+
+Lemma positions_nodup c classes : NoDup (positions c classes).
+Proof. rewrite positions_filter. apply NoDup_filter, zrange_nodup. Qed.
+
+Lemma count_of_nonneg c l : 0 <= count_of c l.
+Proof. apply zlen_nonneg. Qed.
+
+(* a sample's own class is present *)
+Lemma count_of_cls_pos classes i : 0 <= i < zlen classes -> 0 < count_of (cls classes i) classes.
+Proof.
+  intros. rewrite <- zlen_positions.
+  assert (In i (positions (cls classes i) classes)) by (apply In_positions; auto).
+  destruct (positions (cls classes i) classes). destruct H0. rewrite zlen_cons. pose proof (zlen_nonneg l). lia.
+Qed.
+
+Lemma cls_in classes i : 0 <= i < zlen classes -> In (cls classes i) classes.
+Proof. intros. unfold cls. apply nth_In. unfold zlen in H. lia. Qed.
+
+(* occurrences of sample i / of class c in the block of class c' *)
+Lemma occ_positions i c classes :
+  occ i (positions c classes) = if (0 <=? i) && (i <? zlen classes) && (cls classes i =? c) then 1 else 0.
+Proof.
+  rewrite occ_nodup by apply positions_nodup.
+  destruct (in_dec Z.eq_dec i (positions c classes)) as [H|H]; rewrite In_positions in H;
+    destruct (Z.leb_spec 0 i), (Z.ltb_spec i (zlen classes)), (Z.eqb_spec (cls classes i) c); simpl; try lia; tauto.
+Qed.
+
+Lemma class_occ_positions c c' classes :
+  class_occ classes c (positions c' classes) = if c =? c' then count_of c classes else 0.
+Proof.
+  rewrite class_occ_cntf. destruct (Z.eqb_spec c c').
+  - subst. rewrite cntf_all. apply zlen_positions.
+    intros x Hx. apply In_positions in Hx. lia.
+  - apply cntf_none. intros x Hx. apply In_positions in Hx. lia.
+Qed.
+
+Lemma class_occ_all_ids c classes : class_occ classes c (all_ids classes) = count_of c classes.
+Proof.
+  rewrite <- zlen_positions, positions_filter. reflexivity.
+Qed.
+
+(* ------------------------------------------------------------------ *)
+(* ClassFilterWrapper                                                  *)
+(* ------------------------------------------------------------------ *)
+Lemma class_filter_spec_l valid cs classes :
+  class_filter valid cs classes
+  = spec_class_filter classes (fun c => Bool.eqb (existsb (Z.eqb c) cs) valid).
+Proof. unfold class_filter, spec_class_filter. apply sel_from_spec. Qed.
+
+Lemma class_filter_valid_l cs classes i :
+  In i (class_filter true cs classes) <-> 0 <= i < zlen classes /\ In (cls classes i) cs.
+Proof.
+  rewrite class_filter_spec_l. unfold spec_class_filter, all_ids. rewrite filter_In, In_zrange.
+  rewrite eqb_true_iff, existsb_exists. split.
+  - intros (? & x & ? & E). apply Z.eqb_eq in E. subst. tauto.
+  - intros (? & ?). split; auto. exists (cls classes i). split; auto. apply Z.eqb_refl.
+Qed.
+
+Lemma class_filter_invalid_l cs classes i :
+  In i (class_filter false cs classes) <-> 0 <= i < zlen classes /\ ~ In (cls classes i) cs.
+Proof.
+  rewrite class_filter_spec_l. unfold spec_class_filter, all_ids. rewrite filter_In, In_zrange.
+  destruct (existsb (Z.eqb (cls classes i)) cs) eqn:E; simpl.
+  - apply existsb_exists in E. destruct E as (x & ? & E). apply Z.eqb_eq in E. subst.
+    split. intros (? & ?); discriminate. tauto.
+  - split; [|tauto]. intros (? & _). split; auto. intro Hin.
+    assert (existsb (Z.eqb (cls classes i)) cs = true)
+      by (apply existsb_exists; eexists; split; eauto; apply Z.eqb_refl).
+    congruence.
+Qed.
+
+Lemma class_filter_sorted_l valid cs classes : StronglySorted Z.lt (class_filter valid cs classes).
+Proof. rewrite class_filter_spec_l. apply filter_sorted, zrange_sorted. Qed.
+
+(* ------------------------------------------------------------------ *)
+(* ranges: PercentFilterWrapper, SubsetWrapper                         *)
+(* ------------------------------------------------------------------ *)
+(* what the theorems need of the percent -> index map on a dataset of size n
+   (checked for the binary64 instance fcut on every generated case, not proved) *)
+Definition cut_contract (cut : cut_t) (n : Z) : Prop :=
+  (forall c, cut c 0%float n = 0) /\ (forall c, cut c 1%float n = n) /\
+  (forall c p, pct_ok p = true -> 0 <= cut c p n <= n) /\
+  (forall p q, pct_ok p = true -> pct_ok q = true -> PrimFloat.leb p q = true -> cut false p n <= cut false q n).
+
+Lemma pct_ok_0 : pct_ok 0%float = true. Proof. reflexivity. Qed.
+Lemma pct_ok_1 : pct_ok 1%float = true. Proof. reflexivity. Qed.
+
+Lemma block_contiguous_l a b :
+  zlen (zrange a b) = Z.max 0 (b - a) /\
+  forall k, (k < length (zrange a b))%nat -> nth k (zrange a b) 0 = a + Z.of_nat k.
+Proof. split. apply zlen_zrange. apply zrange_nth. Qed.
+
+Lemma three_blocks a b n : 0 <= a <= b -> b <= n -> zrange 0 a ++ zrange a b ++ zrange b n = zrange 0 n.
+Proof. intros. rewrite (zrange_app a b n), (zrange_app 0 a n) by lia. reflexivity. Qed.
+
+Lemma percent_filter_block cut n f t cf ct out :
+  percent_filter_g cut n f t cf ct = Some out ->
+  out = zrange (cut cf (odflt f 0%float) n) (cut ct (odflt t 1%float) n).
+Proof. unfold percent_filter_g. destruct (_ && _); congruence. Qed.
+
+Lemma subset_range_block n s e out :
+  subset_range n s e = Some out ->
+  out = zrange (odflt s 0) (Z.min (odflt e n) n) /\ odflt s 0 <= Z.min (odflt e n) n.
+Proof.
+  unfold subset_range. destruct (negb _). discriminate.
+  destruct (Z.leb_spec (odflt s 0) (Z.min (odflt e n) n)); intros E; inversion E. auto.
+Qed.
+
+Lemma subset_percent_block cut n s e out :
+  subset_percent_g cut n s e = Some out ->
+  out = zrange (cut false (odflt s 0%float) n) (cut false (odflt e 1%float) n).
+Proof.
+  unfold subset_percent_g. destruct (negb (is_some s || is_some e)). discriminate.
+  destruct (negb _). discriminate. destruct (PrimFloat.leb _ _); congruence.
+Qed.
+
+Lemma percent_filter_partition cut n p q c1 c2 :
+  cut_contract cut n -> pct_ok p = true -> pct_ok q = true -> cut c1 p n <= cut c2 q n ->
+  exists A B D,
+    percent_filter_g cut n None (Some p) false c1 = Some A /\
+    percent_filter_g cut n (Some p) (Some q) c1 c2 = Some B /\
+    percent_filter_g cut n (Some q) None c2 false = Some D /\
+    A ++ B ++ D = zrange 0 n.
+Proof.
+  intros (H0 & H1 & Hb & _) Hp Hq Hle. unfold percent_filter_g. simpl odflt.
+  rewrite Hp, Hq, pct_ok_0, pct_ok_1. simpl. do 3 eexists. repeat split.
+  rewrite H0, H1. apply three_blocks. pose proof (Hb c1 p Hp). lia. apply Hb; auto.
+Qed.
+
+Lemma percent_filter_partition2 cut n p c :
+  cut_contract cut n -> pct_ok p = true ->
+  exists A D,
+    percent_filter_g cut n None (Some p) false c = Some A /\
+    percent_filter_g cut n (Some p) None c false = Some D /\
+    A ++ D = zrange 0 n.
+Proof.
+  intros (H0 & H1 & Hb & _) Hp. unfold percent_filter_g. simpl odflt.
+  rewrite Hp, pct_ok_0, pct_ok_1. simpl. do 2 eexists. repeat split.
+  rewrite H0, H1. apply zrange_app. apply Hb; auto.
+Qed.
+
+Lemma subset_range_partition n a b :
+  0 <= a <= b -> a <= n ->
+  exists A B D,
+    subset_range n None (Some a) = Some A /\
+    subset_range n (Some a) (Some b) = Some B /\
+    subset_range n (Some (Z.min b n)) None = Some D /\
+    A ++ B ++ D = zrange 0 n.
+Proof.
+  intros. unfold subset_range. simpl.
+  destruct (Z.leb_spec 0 (Z.min a n)); [|lia].
+  destruct (Z.leb_spec a (Z.min b n)); [|lia].
+  destruct (Z.leb_spec (Z.min b n) (Z.min n n)); [|lia].
+  do 3 eexists. repeat split.
+  replace (Z.min a n) with a by lia. replace (Z.min n n) with n by lia.
+  apply three_blocks; lia.
+Qed.
+
+Lemma subset_range_partition2 n c :
+  0 <= c <= n ->
+  exists A D,
+    subset_range n None (Some c) = Some A /\ subset_range n (Some c) None = Some D /\ A ++ D = zrange 0 n.
+Proof.
+  intros. unfold subset_range. simpl.
+  destruct (Z.leb_spec 0 (Z.min c n)); [|lia].
+  destruct (Z.leb_spec c (Z.min n n)); [|lia].
+  do 2 eexists. repeat split.
+  replace (Z.min c n) with c by lia. replace (Z.min n n) with n by lia. apply zrange_app. lia.
+Qed.
+
+Lemma leb_0 p : pct_ok p = true -> PrimFloat.leb 0 p = true.
+Proof. unfold pct_ok. intros H. apply andb_prop in H. tauto. Qed.
+Lemma leb_1 p : pct_ok p = true -> PrimFloat.leb p 1 = true.
+Proof. unfold pct_ok. intros H. apply andb_prop in H. tauto. Qed.
+
+Lemma subset_percent_partition cut n p q :
+  cut_contract cut n -> pct_ok p = true -> pct_ok q = true -> PrimFloat.leb p q = true ->
+  exists A B D,
+    subset_percent_g cut n None (Some p) = Some A /\
+    subset_percent_g cut n (Some p) (Some q) = Some B /\
+    subset_percent_g cut n (Some q) None = Some D /\
+    A ++ B ++ D = zrange 0 n.
+Proof.
+  intros (H0 & H1 & Hb & Hm) Hp Hq Hle. unfold subset_percent_g. cbn [odflt is_some orb negb].
+  rewrite Hp, Hq, pct_ok_0, pct_ok_1, Hle, (leb_0 p Hp), (leb_1 q Hq). cbn [andb negb].
+  do 3 eexists. repeat split. rewrite H0, H1. apply three_blocks.
+  pose proof (Hb false p Hp). pose proof (Hm p q Hp Hq Hle). lia. apply Hb; auto.
+Qed.
+
+(* ------------------------------------------------------------------ *)
+(* ShuffleWrapper                                                      *)
+(* ------------------------------------------------------------------ *)
+Lemma shuffle_perm_l classes draw :
+  Permutation draw (zrange 0 (zlen classes)) -> Permutation (shuffle (zlen classes) draw) (all_ids classes).
+Proof. auto. Qed.
+
+(* ------------------------------------------------------------------ *)
+(* RepeatWrapper                                                       *)
+(* ------------------------------------------------------------------ *)
+Ltac Zify.zify_post_hook ::= Z.to_euclidean_division_equations.
+
+Lemma zlen_concat_repeat {A} (l : list A) k : zlen (concat (repeat l k)) = Z.of_nat k * zlen l.
+Proof. induction k. reflexivity. simpl repeat. simpl concat. rewrite zlen_app, IHk, Nat2Z.inj_succ. ring. Qed.
+
+Lemma repeat_reps_l classes r :
+  0 < zlen classes -> 0 < r ->
+  repeat_wrapper (zlen classes) (Some r) None = Some (copies classes r).
+Proof.
+  intros. unfold repeat_wrapper. simpl.
+  destruct (Z.leb_spec (zlen classes) 0); [lia|]. destruct (Z.leb_spec r 0); [lia|]. reflexivity.
+Qed.
+
+Lemma repeat_min_size_l classes m :
+  0 < zlen classes -> 0 < m ->
+  let n := zlen classes in
+  let k := (m + n - 1) / n in
+  repeat_wrapper n None (Some m) = Some (copies classes k) /\
+  zlen (copies classes k) = k * n /\ (k - 1) * n < m <= k * n.
+Proof.
+  intros. unfold repeat_wrapper. simpl. fold n.
+  destruct (Z.leb_spec n 0); [lia|]. destruct (Z.leb_spec m 0); [lia|].
+  split. reflexivity. split.
+  - unfold copies. rewrite zlen_concat_repeat. unfold all_ids. rewrite zlen_zrange. fold n.
+    assert (0 <= k) by (unfold k; apply Z.div_pos; lia). nia.
+  - unfold k. nia.
+Qed.
+
+Lemma copies_nth_l classes : forall k j,
+  0 <= j < Z.of_nat k * zlen classes ->
+  nth (Z.to_nat j) (concat (repeat (all_ids classes) k)) (-1) = j mod zlen classes.
+Proof.
+  set (n := zlen classes).
+  assert (Hl : length (all_ids classes) = Z.to_nat n) by (unfold all_ids; rewrite zrange_length; f_equal; lia).
+  induction k; intros. lia.
+  simpl repeat. simpl concat. destruct (Z.ltb_spec j n).
+  - rewrite app_nth1 by lia. unfold all_ids. rewrite (nth_indep _ (-1) 0) by (fold (all_ids classes); lia).
+    rewrite zrange_nth by (fold (all_ids classes); lia). rewrite Z.mod_small; lia.
+  - rewrite app_nth2 by lia. rewrite Hl.
+    replace (Z.to_nat j - Z.to_nat n)%nat with (Z.to_nat (j - n)) by lia.
+    rewrite IHk by lia. assert (0 < n) by lia.
+    replace j with ((j - n) + 1 * n) at 2 by lia. now rewrite Z.mod_add by lia.
+Qed.
+
+(* ------------------------------------------------------------------ *)
+(* SortByClassWrapper                                                  *)
+(* ------------------------------------------------------------------ *)
+Definition labels_in (classes : list Z) (C : Z) : Prop := Forall (fun c => 0 <= c < C) classes.
+
+(* i comes before j: smaller class, or same class and smaller id (stable) *)
+Definition before (classes : list Z) (i j : Z) : Prop :=
+  cls classes i < cls classes j \/ (cls classes i = cls classes j /\ i < j).
+
+Lemma filter_all {A} (f : A -> bool) l : (forall x, In x l -> f x = true) -> filter f l = l.
+Proof.
+  induction l; intros. reflexivity. simpl. rewrite H by (now left). f_equal. apply IHl. intros. apply H. now right.
+Qed.
+
+Lemma filter_none {A} (f : A -> bool) l : (forall x, In x l -> f x = false) -> filter f l = [].
+Proof.
+  induction l; intros. reflexivity. simpl. rewrite H by (now left). apply IHl. intros. apply H. now right.
+Qed.
+
+Lemma filter_split_perm {A} (f g h : A -> bool) l :
+  (forall x, f x = g x || h x) -> (forall x, g x && h x = false) ->
+  Permutation (filter f l) (filter g l ++ filter h l).
+Proof.
+  intros Hf Hd. induction l. constructor.
+  simpl. rewrite Hf. specialize (Hd a). destruct (g a), (h a); simpl in *; try discriminate.
+  - now constructor.
+  - now apply Permutation_cons_app.
+  - assumption.
+Qed.
+
+Lemma labels_in_cls classes C i : labels_in classes C -> 0 <= i < zlen classes -> 0 <= cls classes i < C.
+Proof.
+  intros H Hi. unfold labels_in in H. rewrite Forall_forall in H. apply H. now apply cls_in.
+Qed.
+
+Definition blocks (classes : list Z) (k : Z) : list Z := concat (map (fun c => positions c classes) (zrange 0 k)).
+
+Lemma blocks_snoc classes k : 0 <= k -> blocks classes (k + 1) = blocks classes k ++ positions k classes.
+Proof.
+  intros. unfold blocks. rewrite zrange_snoc by lia. rewrite map_app, concat_app. simpl. now rewrite app_nil_r.
+Qed.
+
+Lemma blocks_perm_k classes : forall k : nat,
+  Permutation (blocks classes (Z.of_nat k))
+              (filter (fun i => (0 <=? cls classes i) && (cls classes i <? Z.of_nat k)) (all_ids classes)).
+Proof.
+  induction k.
+  - unfold blocks. simpl. rewrite filter_none. constructor. intros. lia.
+  - rewrite Nat2Z.inj_succ. unfold Z.succ. rewrite blocks_snoc by lia.
+    rewrite positions_filter.
+    etransitivity. apply Permutation_app_tail. apply IHk.
+    symmetry. apply filter_split_perm; intros; lia.
+Qed.
+
+Lemma blocks_perm classes C : labels_in classes C -> Permutation (blocks classes C) (all_ids classes).
+Proof.
+  intros H. destruct (Z.leb_spec 0 C).
+  - rewrite <- (Z2Nat.id C) by lia. etransitivity. apply blocks_perm_k.
+    rewrite filter_all. reflexivity. intros x Hx. apply In_zrange in Hx.
+    pose proof (labels_in_cls classes C x H Hx). lia.
+  - destruct classes. unfold blocks. rewrite zrange_nil by lia. constructor.
+    inversion H. lia.
+Qed.
+
+Lemma sorted_app {A} (R : A -> A -> Prop) l1 l2 :
+  StronglySorted R l1 -> StronglySorted R l2 -> (forall x y, In x l1 -> In y l2 -> R x y) ->
+  StronglySorted R (l1 ++ l2).
+Proof.
+  induction 1; intros; simpl. assumption.
+  constructor. apply IHStronglySorted; auto. intros. apply H2; simpl; auto.
+  apply Forall_forall. intros y Hy. apply in_app_or in Hy. destruct Hy.
+  rewrite Forall_forall in H0. auto. apply H2; simpl; auto.
+Qed.
+
+Lemma sorted_impl_in {A} (R R' : A -> A -> Prop) l :
+  StronglySorted R l -> (forall x y, In x l -> In y l -> R x y -> R' x y) -> StronglySorted R' l.
+Proof.
+  induction 1; intros. constructor. constructor.
+  apply IHStronglySorted. intros. apply H1; simpl; auto.
+  apply Forall_forall. intros y Hy. rewrite Forall_forall in H0. apply H1; simpl; auto.
+Qed.
+
+Lemma blocks_sorted_k classes : forall k : nat,
+  StronglySorted (before classes) (blocks classes (Z.of_nat k)) /\
+  forall x, In x (blocks classes (Z.of_nat k)) -> cls classes x < Z.of_nat k.
+Proof.
+  induction k.
+  - unfold blocks. simpl. split. constructor. intros x [].
+  - destruct IHk as (IHs & IHc). rewrite Nat2Z.inj_succ. unfold Z.succ. rewrite blocks_snoc by lia. split.
+    + apply sorted_app; auto.
+      * apply sorted_impl_in with (R := Z.lt). apply positions_sorted.
+        intros x y Hx Hy Hlt. apply In_positions in Hx. apply In_positions in Hy. right. lia.
+      * intros x y Hx Hy. apply IHc in Hx. apply In_positions in Hy. left. lia.
+    + intros x Hx. apply in_app_or in Hx. destruct Hx as [Hx|Hx].
+      apply IHc in Hx. lia. apply In_positions in Hx. lia.
+Qed.
+
+Lemma sort_by_class_l classes C :
+  labels_in classes C ->
+  Permutation (sort_by_class classes C) (all_ids classes) /\
+  StronglySorted (before classes) (sort_by_class classes C).
+Proof.
+  intros H. split. apply (blocks_perm classes C H).
+  destruct (Z.leb_spec 0 C).
+  - rewrite <- (Z2Nat.id C) by lia. apply blocks_sorted_k.
+  - unfold sort_by_class. rewrite zrange_nil by lia. constructor.
+Qed.
+
+(* the relation is a strict total order on sample ids, so the sorted permutation is unique:
+   sort_by_class is THE stable sort *)
+Lemma before_trans classes i j k : before classes i j -> before classes j k -> before classes i k.
+Proof. unfold before. lia. Qed.
+
+Lemma before_irrefl classes i : ~ before classes i i.
+Proof. unfold before. lia. Qed.
+
+Lemma before_total classes i j : i <> j -> before classes i j \/ before classes j i.
+Proof. unfold before. lia. Qed.
+
+(* ------------------------------------------------------------------ *)
+(* class counts                                                        *)
+(* ------------------------------------------------------------------ *)
+Lemma combine_map_self {A B} (f : A -> B) l : combine l (map f l) = map (fun x => (x, f x)) l.
+Proof. induction l; simpl. reflexivity. now rewrite IHl. Qed.
+
+Lemma zrange_max0 c : zrange 0 (Z.max 0 c) = zrange 0 c.
+Proof. destruct (Z.leb_spec 0 c). now rewrite Z.max_r by lia. rewrite Z.max_l by lia. now rewrite !zrange_nil by lia. Qed.
+
+Definition counts_of (classes : list Z) (C' : Z) : list Z := map (fun c => count_of c classes) (zrange 0 C').
+Definition mxc (classes : list Z) (C' : Z) : Z := zmax (counts_of classes C').
+
+Lemma class_counts_some classes C :
+  labels_in classes (n_classes_eff C) -> class_counts classes C = Some (counts_of classes (n_classes_eff C)).
+Proof.
+  intros H. unfold class_counts. rewrite (proj2 (forallb_forall _ _)). reflexivity.
+  unfold labels_in in H. rewrite Forall_forall in H. intros x Hx. specialize (H x Hx). lia.
+Qed.
+
+Lemma class_counts_inv classes C counts :
+  class_counts classes C = Some counts -> counts = counts_of classes (n_classes_eff C).
+Proof. unfold class_counts, counts_of. cbv zeta. destruct (forallb _ _); intros E; inversion E; reflexivity. Qed.
+
+Lemma zmax_ge l x : In x l -> x <= zmax l.
+Proof. induction l; simpl; intros. tauto. destruct H. subst. lia. specialize (IHl H). lia. Qed.
+
+Lemma zmax_nonneg l : 0 <= zmax l.
+Proof. induction l; simpl; lia. Qed.
+
+Lemma zmax_in l : zmax l = 0 \/ In (zmax l) l.
+Proof.
+  induction l; simpl. auto. destruct IHl.
+  - destruct (Z.max_spec a (zmax l)) as [(?&->)|(?&->)]; auto.
+  - destruct (Z.max_spec a (zmax l)) as [(?&->)|(?&->)]; auto.
+Qed.
+
+Lemma count_le_mxc classes C' c : 0 <= c < C' -> count_of c classes <= mxc classes C'.
+Proof.
+  intros. apply zmax_ge. unfold counts_of. apply in_map_iff. exists c. split; auto. now apply In_zrange.
+Qed.
+
+Lemma mxc_attained classes C' : 0 < mxc classes C' -> exists c, 0 <= c < C' /\ count_of c classes = mxc classes C'.
+Proof.
+  intros. destruct (zmax_in (counts_of classes C')) as [E|E]. unfold mxc in H. lia.
+  unfold counts_of in E at 2. apply in_map_iff in E. destruct E as (c & E & Hc). apply In_zrange in Hc.
+  exists c. split; auto.
+Qed.
+
+Lemma mxc_pos classes C' : classes <> [] -> labels_in classes C' -> 0 < mxc classes C'.
+Proof.
+  intros Hne Hl. destruct classes as [|c r]. congruence.
+  inversion Hl; subst. pose proof (count_le_mxc (c :: r) C' c H1).
+  assert (0 < count_of c (c :: r)).
+  { rewrite count_of_cntf, cntf_cons, Z.eqb_refl. pose proof (cntf_nonneg (Z.eqb c) r). lia. }
+  lia.
+Qed.
+
+(* ------------------------------------------------------------------ *)
+(* counting over a concatenation of per-class blocks                   *)
+(* ------------------------------------------------------------------ *)
+Lemma cntf_concat_map_zero f (g : Z -> list Z) l :
+  (forall c, In c l -> cntf f (g c) = 0) -> cntf f (concat (map g l)) = 0.
+Proof.
+  induction l; intros. reflexivity. simpl. rewrite cntf_app, H by (now left). rewrite IHl. reflexivity.
+  intros. apply H. now right.
+Qed.
+
+Lemma cntf_concat_map_single f (g : Z -> list Z) l c0 :
+  NoDup l -> In c0 l -> (forall c, In c l -> c <> c0 -> cntf f (g c) = 0) ->
+  cntf f (concat (map g l)) = cntf f (g c0).
+Proof.
+  induction 1; intros Hin Hz. destruct Hin.
+  simpl. rewrite cntf_app. destruct Hin.
+  - subst. rewrite cntf_concat_map_zero. lia.
+    intros c Hc. apply Hz. now right. intro. subst. contradiction.
+  - rewrite (Hz x). rewrite IHNoDup; auto. intros. apply Hz; auto. now right.
+    now left. intro. subst. contradiction.
+Qed.
+
+Lemma cntf_blocks_single f (g : Z -> list Z) C' c0 :
+  0 <= c0 < C' -> (forall c, 0 <= c < C' -> c <> c0 -> cntf f (g c) = 0) ->
+  cntf f (concat (map g (zrange 0 C'))) = cntf f (g c0).
+Proof.
+  intros. apply cntf_concat_map_single. apply zrange_nodup. now apply In_zrange.
+  intros c Hc. apply In_zrange in Hc. auto.
+Qed.
